@@ -181,6 +181,27 @@ func (d *drv[K]) Dump() *art.VerifNode {
 
 func (d *drv[K]) Poison(fill func(int) byte) { art.VerifPoisonStale(d.t, fill) }
 
+// AliasProbe issues read-only queries whose arguments are sub-slices of keys the tree itself
+// returned (partial-path arguments with spare capacity that may be tree-owned memory). Only
+// meaningful for []byte keys; a no-op otherwise.
+func (d *drv[K]) AliasProbe() {
+	var keys [][]byte
+	d.t.All()(func(k K, _ int) bool {
+		if b, ok := any(k).([]byte); ok {
+			keys = append(keys, b)
+		}
+		return true
+	})
+	for _, b := range keys {
+		for cut := 0; cut < len(b); cut++ {
+			arg := any(b[:cut]).(K)
+			d.t.Search(arg)
+			d.t.Prefix(arg)(func(K, int) bool { return false })
+			d.t.Range(arg, arg)(func(K, int) bool { return false })
+		}
+	}
+}
+
 // Collect drives a sequence to completion.
 func Collect(s func(func(Pair) bool)) []Pair {
 	var out []Pair
